@@ -632,8 +632,9 @@ OBLIGATIONS = [
        outside="first dimension sampled (interval 1, cm -> mm), second a set dimension with tag unit 'none'"),
     Ob("tag_on_sample_ieee754", _ob_tag_on_sample_float, timeout=1200, custom=_custom_tag_on_sample, twin=False,
        partition_by_tier={"quick": [(0.1, 0.0, 4096), (0.001, 0.0, 4096), (0.3, 0.7, 4096)],
-                          "thorough": [(si, off, 65536) for si, off in ((0.1, 0.0), (0.001, 0.0), (0.3, 0.7),
-                                                                       (0.1, -1.3), (2.5e-05, 0.0))]},
+                          "thorough": [(si, off, 4096) for si, off in ((0.1, 0.0), (0.001, 0.0), (0.3, 0.7),
+                                                                      (0.1, -1.3), (2.5e-05, 0.0),
+                                                                      (1.0 / 3.0, 0.25))]},
        functions=["nixio.dimensions.SampledDimension.position_at", "nixio.dimensions.SampledDimension.index_of"],
        replay=_replay_tag_on_sample,
        outside="other interval/offset doubles; positions that are not exactly on a sample; extents"),
